@@ -134,6 +134,14 @@ impl StoreEnv {
     }
 
     pub fn thread_id(&self, t: usize) -> String {
+        // unusual / unknown thread ids (no such thread exists)
+        match t {
+            98 => return "../events".to_string(),
+            97 => return String::new(),
+            96 => return "a/b".to_string(),
+            95 => return "..".to_string(),
+            _ => {}
+        }
         let ids = self.ids.lock().unwrap();
         ids.threads
             .get(t)
@@ -148,6 +156,20 @@ impl StoreEnv {
             .and_then(|v| v.get(m))
             .cloned()
             .unwrap_or_else(|| format!("ffffffff-0000-4000-8000-{:012}", m))
+    }
+
+    /// message id named by an op: `m` = ordinal among the messages this executor appended, or
+    /// `m_seq` = seq of the message frame in the thread (looked up in the truth log)
+    pub fn msg_ref(&self, t: usize, op: &Value) -> String {
+        if let Some(q) = get_u64(op, "m_seq") {
+            return self
+                .truth_frames(t)
+                .iter()
+                .find(|e| e.seq == q)
+                .map(|e| e.id.clone())
+                .unwrap_or_else(|| format!("ffffffff-0000-4000-8000-{:012}", q));
+        }
+        self.msg_id(t, get_u64(op, "m").unwrap_or(0) as usize)
     }
 
     pub fn session_id(&self, s: usize) -> String {
@@ -196,12 +218,16 @@ pub fn log_delta(before: &LogObs, after: &LogObs) -> Value {
         for line in body.split('\n') {
             match serde_json::from_str::<Value>(line) {
                 Ok(v) if serde_json::from_value::<Event>(v.clone()).is_ok() => {
-                    new_frames.push(json!({
-                        "stream": v.get("stream_id").cloned().unwrap_or(Value::Null),
-                        "sk": v.get("stream_kind").cloned().unwrap_or(Value::Null),
-                        "seq": v.get("seq").cloned().unwrap_or(Value::Null),
-                        "kind": v.get("type").cloned().unwrap_or(Value::Null),
-                    }));
+                    let mut f = v.clone();
+                    if let Some(o) = f.as_object_mut() {
+                        o.insert("stream".into(), v.get("stream_id").cloned().unwrap_or(Value::Null));
+                        o.insert("sk".into(), v.get("stream_kind").cloned().unwrap_or(Value::Null));
+                        o.insert("kind".into(), v.get("type").cloned().unwrap_or(Value::Null));
+                        for k in ["content", "details", "result", "limits"] {
+                            o.remove(k);
+                        }
+                    }
+                    new_frames.push(f);
                 }
                 _ => lines_ok = false,
             }
@@ -366,6 +392,34 @@ impl Normalizer {
         }
     }
 
+    /// Replace every known id and every uuid / 64-hex token in free text.
+    pub fn scrub_ids(&self, s: &str) -> String {
+        let mut out = s.to_string();
+        for (k, v) in &self.map {
+            if k.len() >= 32 && out.contains(k.as_str()) {
+                out = out.replace(k.as_str(), v);
+            }
+        }
+        // remaining hex-ish tokens of length >= 32
+        let mut res = String::new();
+        let mut tok = String::new();
+        for ch in out.chars().chain(std::iter::once(' ')) {
+            if ch.is_ascii_hexdigit() || ch == '-' {
+                tok.push(ch);
+            } else {
+                if tok.len() >= 32 {
+                    res.push_str("<id>");
+                } else {
+                    res.push_str(&tok);
+                }
+                tok.clear();
+                res.push(ch);
+            }
+        }
+        res.pop();
+        res
+    }
+
     /// Replace any embedded known id inside a longer string (error messages).
     fn norm_str(&self, s: &str) -> String {
         if s.len() < 32 {
@@ -412,9 +466,13 @@ impl StoreEnv {
     /// Execute one abstract operation.  Returns `{ok, ret}` (un-normalised).
     pub fn exec(&self, op: &Value) -> Value {
         let name = get_str(op, "op").unwrap_or("");
-        let t = get_u64(op, "t").unwrap_or(0) as usize;
+        let t = if get_str(op, "t") == Some("last") {
+            self.ids.lock().unwrap().threads.len().saturating_sub(1)
+        } else {
+            get_u64(op, "t").unwrap_or(0) as usize
+        };
         let tid = self.thread_id(t);
-        let actor = "verif-actor".to_string();
+        let actor = get_str(op, "actor").unwrap_or("verif-actor").to_string();
         let origin = "verif".to_string();
         let (ok, ret): (bool, Value) = match name {
             "ensure_default" => {
@@ -433,6 +491,13 @@ impl StoreEnv {
                     let ids = self.ids.lock().unwrap();
                     format!("{}:{}", t, ids.msgs.get(&t).map(|v| v.len()).unwrap_or(0))
                 });
+                // distinct actors with equal message counts (summary text must not depend on map order)
+                let actor = if op.get("actor").is_some() {
+                    actor
+                } else {
+                    let n = self.ids.lock().unwrap().msgs.get(&t).map(|v| v.len()).unwrap_or(0);
+                    ["alice", "bob", "carol", "dave"][n % 4].to_string()
+                };
                 let r = self
                     .store()
                     .append_message(&tid, actor, origin, content_for(&tag, pad));
@@ -468,11 +533,10 @@ impl StoreEnv {
                 (okc == n, json!({"appended": okc}))
             }
             "run_spawned" => {
-                let m = get_u64(op, "m").unwrap_or(0) as usize;
                 let s = get_u64(op, "s").unwrap_or(0) as usize;
                 let r = self.store().append_run_spawned(
                     &tid,
-                    &self.msg_id(t, m),
+                    &self.msg_ref(t, op),
                     &self.session_id(s),
                     actor,
                     origin,
@@ -480,11 +544,10 @@ impl StoreEnv {
                 to_json(r)
             }
             "run_ended" => {
-                let m = get_u64(op, "m").unwrap_or(0) as usize;
                 let s = get_u64(op, "s").unwrap_or(0) as usize;
                 let r = self.store().append_run_ended(
                     &tid,
-                    &self.msg_id(t, m),
+                    &self.msg_ref(t, op),
                     &self.session_id(s),
                     get_str(op, "reason").unwrap_or("completed").to_string(),
                     actor,
@@ -493,11 +556,10 @@ impl StoreEnv {
                 to_json(r)
             }
             "side_effects" => {
-                let m = get_u64(op, "m").unwrap_or(0) as usize;
                 let s = get_u64(op, "s").unwrap_or(0) as usize;
                 let link = ContinuityRunLink {
                     continuity_id: tid.clone(),
-                    message_id: self.msg_id(t, m),
+                    message_id: self.msg_ref(t, op),
                     actor_id: actor,
                     origin,
                 };
@@ -543,7 +605,11 @@ impl StoreEnv {
                     to_message_id: op
                         .get("to_msg")
                         .and_then(|x| x.as_u64())
-                        .map(|m| self.msg_id(t, m as usize)),
+                        .map(|m| self.msg_id(t, m as usize))
+                        .or_else(|| {
+                            get_u64(op, "to_msg_seq")
+                                .map(|q| self.msg_ref(t, &json!({"m_seq": q})))
+                        }),
                     to_seq: get_u64(op, "to_seq"),
                     stride_messages: get_u64(op, "stride"),
                     actor_id: actor,
@@ -649,6 +715,9 @@ impl StoreEnv {
                     .get("from_msg")
                     .and_then(|x| x.as_u64())
                     .map(|m| self.msg_id(t, m as usize))
+                    .or_else(|| {
+                        get_u64(op, "from_msg_seq").map(|q| self.msg_ref(t, &json!({"m_seq": q})))
+                    })
                     .or_else(|| get_str(op, "from_raw_id").map(str::to_string))
                     .or_else(|| {
                         // id of a non-message frame, by seq
@@ -669,9 +738,20 @@ impl StoreEnv {
                         origin,
                     )
                 } else {
+                    let existing = if get_bool(op, "artifact_of_latest_checkpoint").unwrap_or(false) {
+                        self.truth_frames(t).iter().rev().find_map(|e| match &e.kind {
+                            rip_kernel::EventKind::ContinuityCompactionCheckpointCreated {
+                                summary_artifact_id,
+                                ..
+                            } => Some(summary_artifact_id.clone()),
+                            _ => None,
+                        })
+                    } else {
+                        None
+                    };
                     let summary = (
                         get_str(op, "summary").map(str::to_string),
-                        get_str(op, "artifact").map(str::to_string),
+                        get_str(op, "artifact").map(str::to_string).or(existing),
                     );
                     self.store().handoff(
                         &tid,
@@ -688,11 +768,10 @@ impl StoreEnv {
                 to_json(r.map(|(id, seq, mid)| json!({"thread_id": id, "seq": seq, "message_id": mid})))
             }
             "compile" => {
-                let m = get_u64(op, "m").unwrap_or(0) as usize;
                 let s = get_u64(op, "s").unwrap_or(0) as usize;
                 let link = ContinuityRunLink {
                     continuity_id: tid.clone(),
-                    message_id: self.msg_id(t, m),
+                    message_id: self.msg_ref(t, op),
                     actor_id: actor,
                     origin,
                 };
@@ -739,6 +818,69 @@ impl StoreEnv {
                 let kind = get_str(op, "kind").unwrap_or("delete");
                 let done = self.fault(t, &tid, file, kind, op);
                 (true, json!({"applied": done}))
+            }
+            "summaries" => {
+                // every checkpoint frame of the thread with its summary artifact read back
+                let norm = self.normalizer();
+                let mut out = Vec::new();
+                for e in self.truth_frames(t) {
+                    if let rip_kernel::EventKind::ContinuityCompactionCheckpointCreated {
+                        summary_artifact_id,
+                        to_seq,
+                        to_message_id,
+                        ..
+                    } = &e.kind
+                    {
+                        let p = self.ws.join(".rip/artifacts/blobs").join(summary_artifact_id);
+                        let art = fs::read(&p)
+                            .ok()
+                            .and_then(|b| serde_json::from_slice::<Value>(&b).ok());
+                        let md = art
+                            .as_ref()
+                            .and_then(|a| a.get("summary_markdown"))
+                            .and_then(|m| m.as_str())
+                            .unwrap_or("")
+                            .to_string();
+                        let md_norm = norm.scrub_ids(&md);
+                        out.push(json!({
+                            "frame_seq": e.seq,
+                            "to_seq": to_seq,
+                            "to_message_ok": to_message_id.as_deref().map(|m| norm.norm(&json!(m)) == json!(format!("f:T{t}@{to_seq}"))),
+                            "art_ok": art.is_some(),
+                            "art_schema": art.as_ref().and_then(|a| a.get("schema")).cloned(),
+                            "art_to_seq": art.as_ref().and_then(|a| a.pointer("/coverage/to_seq")).cloned(),
+                            "art_thread_ok": art.as_ref().and_then(|a| a.pointer("/coverage/thread_id")).and_then(|x| x.as_str()) == Some(tid.as_str()),
+                            "md_len": md.len(),
+                            "md_sha": util::sha256_hex(md_norm.as_bytes()),
+                        }));
+                    }
+                }
+                (true, json!(out))
+            }
+            "lineage_check" => {
+                // child thread t: first two frames, handoff summary resolvable
+                let frames = self.truth_frames(t);
+                let kinds: Vec<String> = frames
+                    .iter()
+                    .take(3)
+                    .map(|e| serde_json::to_value(&e.kind).ok().and_then(|v| v.get("type").and_then(|x| x.as_str()).map(str::to_string)).unwrap_or_default())
+                    .collect();
+                let mut summary_ok = Value::Null;
+                if let Some(e) = frames.get(1) {
+                    if let rip_kernel::EventKind::ContinuityHandoffCreated {
+                        summary_artifact_id,
+                        summary_markdown,
+                        ..
+                    } = &e.kind
+                    {
+                        let art_ok = summary_artifact_id
+                            .as_ref()
+                            .map(|id| self.ws.join(".rip/artifacts/blobs").join(id).is_file());
+                        summary_ok = json!({"artifact_named": summary_artifact_id.is_some(), "artifact_readable": art_ok,
+                                            "markdown_inline": summary_markdown.is_some()});
+                    }
+                }
+                (true, json!({"kinds": kinds, "seqs": frames.iter().take(3).map(|e| e.seq).collect::<Vec<_>>(), "summary": summary_ok}))
             }
             "drop_caches" => {
                 let _ = fs::remove_dir_all(self.streams_dir());
